@@ -36,6 +36,7 @@ const ValueTypeMetaData *parse_scalar(std::string_view name) {
     if (name == "int") return g_types.i;
     if (name == "bool") return g_types.b;
     if (name == "str") return g_types.s;
+    if (name == "ints") return TypeRegistry::instance().list(g_types.i, 0, true);
     throw std::runtime_error("harness: unknown scalar type '" + std::string{name} + "'");
 }
 
